@@ -140,12 +140,8 @@ var ruleB1 = &Rule{
 					if !ok {
 						continue
 					}
-					k := fieldKey(fa.X.Type(), fa.Field)
-					if !strings.Contains(k, "service.InsertServiceV2.") {
-						continue
-					}
-					f := k[strings.LastIndex(k, ".")+1:]
-					if !b1Fields[f] {
+					f, isBatch := batchFieldOf(c, fa)
+					if !isBatch {
 						continue
 					}
 					// the access happens where the address is used (load / store); the FieldAddr itself is pure
